@@ -31,11 +31,11 @@ PROP = dict(
         "in corpus/C07/defects.ops, all reproduced on the original code)",
     ],
     partial=[
-        "reserialize_ok / toString_terminates are not Lean theorems (the writer's cell order and ToString are not "
-        "modelled): parse_sound + unfold_defined prove that every parse result is a finite acyclic table of bounded "
-        "depth, hash_no_panic that the tree-level hashing model never panics on it; that Cell.Hash, ToBoc, ToString of "
-        "the real code do not panic on parse results is checked per input by go.parse (the tie of the hashing model "
-        "to immutable_cell.go belongs to C02; root hashes are compared Go vs model on every parsed input here)",
+        "reserialize_ok IS a theorem about the writer MODEL (parse_valid + C01.order_valid: re-serialising any parse result "
+        "never errs or panics, for every key identifying its cells -- KeyInjOn is a hypothesis, see C01 assumptions); "
+        "toString_bounded bounds the lines printed by the ToString model. That Cell.Hash, ToBoc, ToString of the REAL "
+        "code do not panic on parse results is additionally checked per input by go.parse (the tie of the hashing "
+        "model to immutable_cell.go belongs to C02; root hashes are compared Go vs model on every parsed input here)",
         "stack use is not modelled as a quantity: the theorems bound the NESTING of any structural recursion over a "
         "parse result by the 1024-level depth limit (unfold_defined with fuel 1026, independent of the input size); "
         "that the Go recursions fit the goroutine stack at that depth is measured (go.parse.deep up to 10^6 cells)",
@@ -53,7 +53,7 @@ PROP = dict(
                "parse_sound -- every returned cell has <= 1023 bits, <= 4 refs, every ref points to a LATER cell of the "
                "table (acyclic, present), pruned branches are complete, roots are cells, depth <= 1024; unfold_defined -- "
                "hence every root denotes a finite tree and recursion over it nests <= 1025 levels whatever the input; "
-               "hash_no_panic -- the hashing model never panics on a parse result; toString_bounded -- printing any root emits <= 4*65536+1 lines whatever the unfolding of the DAG. Tie: model == Go exactly on ~100k (thorough ~2M) adversarial inputs per run; "
+               "hash_no_panic -- the hashing model never panics on a parse result; parse_valid / reserialize_ok -- a parse result is a valid layout and the writer model re-serialises it without error; toString_bounded -- printing any root emits <= 4*65536+1 lines whatever the unfolding of the DAG. Tie: model == Go exactly on ~100k (thorough ~2M) adversarial inputs per run; "
                "direct oracle on Go: no panic / fatal crash / cycle / disproportionate allocation, and Hash, ToBoc, "
                "ToString, re-parse of every result succeed.",
     level_note="trusted: Lean kernel, hand model (exactly compared with Go each run), harness, check.py",
